@@ -128,6 +128,12 @@ class SpecCtx:
     def attr(self, obj, name):
         return self.interp.get_attr(obj, name, self.ctx)
 
+    def tag(self, label):
+        """Name the case of the statement this path is in: obligations emitted from here on carry
+        `[label]`, so that a known finding can be pinned to exactly that case and nothing else."""
+        if self.mode == "verify":
+            self.ctx.oblig_tag = label
+
     def requires(self, cond, what="precondition"):
         """Precondition: assumed while verifying the function itself, an obligation at call sites."""
         if self.mode == "verify":
